@@ -15,6 +15,8 @@ CHECKS = {
  "C05": (E1, "One operation (Call, CallResult, Batch, Notify) and 1-3 events from {reply, cancel, deadline, Close, peer EOF, Recv error, malformed record, Send fault, server callback}, every start order a scenario, every schedule within the budgets; exactly-once return, admissibility of the result w.r.t. the causes that had occurred, OnCancel/OnStop counts, Close-after-callbacks, nothing pending, no thread left.", "vs shims faithful; the peer closes its end after seeing EOF; deadline context implements AfterFunc so no hidden goroutine exists", "DESIGN.md §5 C05"),
  "C09": (E1, "Outside, handler-issued and notification-handler-issued Callbacks / Notify against a raw peer whose answers are scripted (in order, reversed, batched, duplicated, unsolicited, error, late after context end, none), with context cancellation, Stop, and the peer's own call using the colliding id 1, under every schedule within the budgets.", "vs shims faithful; bounds as reported", "DESIGN.md §5 C09"),
  "C10": (E1, "A monitor inside the harness channel adds a scheduling point between entry and exit of Send/Recv/Close, so any two calls the library does not mutually exclude are observed overlapping in some explored schedule; server (batches, parse error, Notify, Callback, Stop, restart) and client (callers, callback reply, Close) workloads.", "vs shims faithful; workloads as listed; bounds as reported", "DESIGN.md §5 C10"),
+ "C11": (E2, "Every record sequence of length <=2 (thorough 3) over a per-framing alphabet of legal records is sent through the real Send (pipelined) and read back under every cut set of <=k cuts (k by stream length), one-byte reads, and EOF delivered with or after the last chunk; size sequences over {0,1,4095,4096,4097,64Ki,1Mi,1Mi+1,3Mi}; split-byte guard on every record <=4 over {a,split}; channel.Direct under the scheduler (all interleavings in the thorough tier).", "encoding/json and bufio trusted; alphabets and cut bounds as reported", "DESIGN.md §5 C11"),
+ "C12": (E2, "Every byte string <=7 (thorough 9) over {a,b,split,CR} for Split/Line, every token string <=4 (thorough 5) over a 21-token header alphabet (including absurd and overflowing lengths) with three suffixes for the four header framings, every string <=5 (6) over the JSON punctuation alphabet for RawJSON, plus every truncation / single-byte substitution of valid header streams; each under <=1 cut, one-byte reads and both EOF placements; compared with three-valued reference decoders (must-yield / must-fail / unspecified) written from the package documentation. Runs in sub-processes under a fixed address-space limit; a dead worker is a violation carrying the announced input.", "reference decoders encode only what the documentation states (unspecified inputs are judged for no-panic / no-fabrication only)", "DESIGN.md §5 C12"),
 }
 ALL = [json.loads(l)["id"] for l in open(os.path.join(HERE, "properties.jsonl"))]
 PENDING = "check not built yet (work in progress in the order of DESIGN.md §10); nothing is claimed for it"
